@@ -26,9 +26,10 @@ DEV_OWNER = {"KillCarriesState": "C04"}
 def run(pid, tier, seed):
     t0 = time.time()
     v = vlib.Verdict(pid)
-    mcs = [vlib.mc_or_die("MC_Lifecycle", "MC_Lifecycle_small.cfg", workers=12, timeout=900)]
+    mcs = [vlib.mc_or_die("MC_Lifecycle", "MC_Lifecycle_small.cfg", workers=12, timeout=900),
+           vlib.mc_or_die("MC_Lifecycle", "MC_Lifecycle_self.cfg", workers=12, timeout=900)]
     if tier == "thorough":
-        mcs.append(vlib.mc_or_die("MC_Lifecycle", "MC_Lifecycle_self.cfg", workers=14, timeout=3000))
+        mcs.append(vlib.mc_or_die("MC_Lifecycle", "MC_Lifecycle_local.cfg", workers=14, timeout=3000))
         mcs.append(vlib.mc_or_die("MC_Lifecycle", "MC_Lifecycle_tree.cfg", workers=14, timeout=3000))
     covered = set()
     for m in mcs:
